@@ -453,10 +453,13 @@ def case_intersect(case):
     n, k, l = case["n"], case["k"], case["l"]
     pool = case["pool"]
     Arows = [pool[j] for j in case["A"]]
+    if L.exact_rank(Arows) != k:
+        return {"v": [], "t": 0, "o": "out-of-domain:dependent-spanning-set", "nt": False}
     Bsets = []
     for comb in itertools.combinations(range(len(pool)), l):
         Brows = [pool[j] for j in comb]
-        if L.exact_rank(Arows + Brows) == n:
+        # precondition: spanning sets are linearly independent and the pair is transverse (all exact)
+        if L.exact_rank(Brows) == l and L.exact_rank(Arows + Brows) == n:
             Bsets.append(Brows)
     if not Bsets:
         return {"v": [], "t": 0, "o": "out-of-domain:no-transverse-partner", "nt": False}
